@@ -42,6 +42,7 @@ ev = {
   "thread_switches_at_a_function_entry_inside_library_code": tot("thread_switches_at_a_function_entry_inside_library_code"),
   "fault_kinds_fired": {
     "sink_returns_fmt_error_at_kth_write": fk("sink_error"),
+    "sink_rejects_only_the_kth_write": sum(p["faults_fired"].get("sink_rejects_one_write", 0) for p in parts),
     "sink_panics_at_kth_write_caught_by_caller": fk("sink_panic_caught"),
     "reentrant_display_from_inside_sink_write": fk("reentrant_display_from_sink"),
   },
